@@ -54,6 +54,7 @@ _pcount = [0]
 SIGS = {"KILL": signal.SIGKILL, "TERM": signal.SIGTERM, "INT": signal.SIGINT}
 _count = [0]
 _killed = [False]
+_lastpid = [None]
 
 
 def _pid_of(obj):
@@ -85,6 +86,7 @@ def _describe(frame):
         pass
     if "code" in loc:
         extra.append(f"code={loc['code']}")
+    _lastpid[0] = pid
     return tag, " ".join(extra)
 
 
@@ -106,6 +108,13 @@ def _local(frame, event, arg):
         ev(f"L {fn} {frame.f_lineno} {tag} {extra}")
         if counted and _count[0] == KILL["n"]:
             _killed[0] = True
+            if KILL.get("freeze_child") and _lastpid[0] is not None:
+                # the job process just created is frozen before it can do anything (it is thawed by the harness)
+                try:
+                    os.kill(_lastpid[0], signal.SIGSTOP)
+                    ev(f"FROZEN {_lastpid[0]}")
+                except OSError:
+                    pass
             ev(f"KILL {KILL['n']} {KILL['sig']} {fn} {frame.f_lineno} {tag}")
             os.kill(os.getpid(), SIGS[KILL["sig"]])
     elif event == "return" and arg is not None and not hasattr(arg, "__await__"):
@@ -130,7 +139,10 @@ def main():
         time.sleep(SPEC["start_delay"])
     watchdog(SPEC.get("maxlife", 90))
     import logging
-    logging.disable(logging.CRITICAL)
+    if SPEC.get("debuglog"):
+        logging.basicConfig(filename=SPEC["debuglog"], level=logging.DEBUG, format="%(asctime)s %(threadName)s %(name)s %(message)s")
+    else:
+        logging.disable(logging.CRITICAL)
     if SPEC.get("trace") or KILL or PAUSE:
         threading.settrace(_global)
         sys.settrace(_global)
@@ -166,7 +178,16 @@ def main():
             if SPEC.get("post_delay"):
                 time.sleep(SPEC["post_delay"])
         tasks = []
-        if wl["kind"] in ("one", "chain2", "indep2"):
+        if wl["kind"] == "tok2":
+            # two independent jobs sharing a counter token of total 1
+            token = xp.workspace.connector.createtoken("vtoken", 1)
+            for tg in wl["tags"]:
+                cfg = Latched(tag=tg, ctl=CTL, maxwait=maxwait)
+                cfg.add_dependencies(token.dependency(1))
+                tasks.append((tg, cfg, cfg.submit()))
+                ev(f"submitted {tg}")
+            phase("submitted")
+        elif wl["kind"] in ("one", "chain2", "indep2"):
             tags = wl["tags"]
             a = Latched(tag=tags[0], ctl=CTL, maxwait=maxwait)
             tasks.append((tags[0], a, a.submit()))
